@@ -61,6 +61,10 @@ func c10(r *Report) propMeta {
 	r.ArgHas("aggregate-pending-ids", heb, "Keeper.AggregatePartialSignatures", 1, 1, "call:Keeper.GetPendingProcessSignings")
 	r.ArgHas("retry-failed-and-expired", heb, "Keeper.InitiateNewSigningRound", 1, 1, "call:Keeper.HandleExpiredSignings", "call:Keeper.GetPendingProcessSignings")
 	r.SameValue("fail-the-retried-id", heb, ArgRef{"Keeper.InitiateNewSigningRound", 1}, ArgRef{"Keeper.HandleFailedSigning", 1})
+	// the retry runs on the cache context (so that a failed one is rolled back), the failure is recorded on the block's
+	// own context (seed C10-10 recorded it on the cache context, which is then dropped: the signing stayed WAITING forever)
+	r.ArgHas("retry-on-the-cache-context", heb, "Keeper.InitiateNewSigningRound", 0, 1, "^~call:Context.CacheContext")
+	r.ArgHas("failure-recorded-on-the-block-context", heb, "Keeper.HandleFailedSigning", 0, 1, "^param:ctx")
 	r.Count("failed-callback-once", hfs, []Effect{CallEff("TSSCallback.OnSigningFailed")}, "all", 0, 1)
 	r.Count("completed-callback-once", agg, []Effect{CallEff("TSSCallback.OnSigningCompleted")}, "ok", 0, 1)
 	r.Count("no-completed-callback-on-failure", agg, []Effect{CallEff("TSSCallback.OnSigningCompleted"), CallEff("Keeper.SetSigning")}, "fail", 0, 0)
